@@ -176,6 +176,17 @@ def eval_case(desc, ctx):
         problems.append(f"after {k} updates step={ostep} time={otime}, expected step={k - 1} time={s + sgn * (k - 1) * dt}")
     if cnc != float(otime - refv):
         problems.append(f"nctime()={cnc}, expected {otime - refv}")
+    # the clock set back the way Model.__init__ does on a warm start (step and time assigned, then updates):
+    # the CF value is the offset of the clock's TIME from the reference, whatever set that time
+    tk.step = 0
+    tk.time = tk.step2time(tk.step)
+    w0 = float(tk.nctime())
+    tk.update()
+    w1 = float(tk.nctime(u))
+    if w0 != float(s - refv) or int(tk.step) != 1 or sec(tk.time) != s + sgn * dt:
+        problems.append(f"clock set to step 0 (as on a warm start): nctime()={w0}, step={int(tk.step)}, time={sec(tk.time)}; expected {s - refv}, 1, {s + sgn * dt}")
+    if abs(w1 - (s + sgn * dt - refv) / USECS[u]) > 1e-9 * max(1.0, abs(w1)):
+        problems.append(f"clock set to step 0 then one update: nctime({u})={w1}, offset from reference={(s + sgn * dt - refv) / USECS[u]}")
     ints = head + [1, oN, oref, n, os2t, x, ot2s, UNITS.index(u)] + fl(onc) + [k, ostep, otime] + fl(cnc)
     # step2nctime in units other than seconds is a float quotient: exact only when representable;
     # use exact stream when divisible, otherwise compare in the oracle only
